@@ -142,6 +142,12 @@ def rule_marking(ctx: Ctx) -> None:
             kinds.add("skip")
             ctx.check(not st, "C04-marking", "Ap._calculate_tp_fp", "skip", "a result whose label has no threshold is marked", fi=fi)
             continue
+        if thr_none is False and correct is None and st:
+            ctx.violate("C04-marking", "Ap._calculate_tp_fp", "marked-without-judgement",
+                        f"on [{bp.cond_text()[:160]}] a ranked result is marked ({', '.join(strip_v(e.recv) + ' = ' + S(e.value) for e in st)}) without is_result_correct having been asked: "
+                        "TP / FP is decided by something other than the matching judgement (mode, threshold, label) that the frame-level counts use", fi=fi,
+                        expected="tp_list[i] / fp_list[i] stored only after obj_result.is_result_correct(matching_mode, matching_threshold)", found="store on a path without is_result_correct")
+            continue
         ctx.require(thr_none is False and correct is not None, f"Ap._calculate_tp_fp: path [{bp.cond_text()[:80]}] not over (threshold None, is_result_correct)")
         ok = len(st) == 1
         ctx.check(ok, "C04-marking", "Ap._calculate_tp_fp", f"once:{tag}", f"a ranked result is marked {len(st)} times ({[strip_v(e.recv) for e in st]}); exactly one of tp_list[i] / fp_list[i]", fi=fi)
